@@ -236,11 +236,15 @@ func (c *Compiler) expandModule(module *parse.Module) {
 		}
 		applyToPath := a.ArgSchema()
 		applyToPfx := applyToPath[0].Space
-		applyToMod, err := nod.GetModuleByPrefix(
+		// The prefix means what the (sub)module the augment is written
+		// in says
+		applyToMod, err := a.GetModuleByPrefix(
 			applyToPfx, c.modules, c.skipUnknown)
 		if err != nil {
 			c.error(nod, err)
 		}
+		// (a submodule's own tree is part of its module's)
+		applyToMod = c.owningModule(applyToMod)
 		if applyToMod != nod {
 			if isMandatory(a) {
 				c.error(a, fmt.Errorf("Cannot add mandatory nodes to another module: %s",
